@@ -31,6 +31,8 @@ C15Labels(c) ==
           \cup (IF ~ShadowEqualsLive(c.steps[i].shadow, c.steps[i].live) THEN {"shadow-differs-from-live"} ELSE {})
           : i \in DOMAIN c.steps }
   \cup UNION { IF ~RestartEquivalent(c.restarts[j]) THEN {"restart-differs"} ELSE {} : j \in DOMAIN c.restarts }
+  \* the reference consumer (a real sio.Stdio given the same reports) arrives at the store that the model's fold arrives at
+  \cup (IF "stdioStore" \in DOMAIN c /\ c.steps # <<>> /\ c.stdioStore # c.steps[Len(c.steps)].shadow THEN {"stdio-store-differs"} ELSE {})
 
 Init == l = 1 /\ bad = <<>> /\ stats = [histories |-> 0, steps |-> 0, dequeues |-> 0, presents |-> 0, batches |-> 0, restarts |-> 0]
 Next ==
